@@ -639,6 +639,9 @@ func (x *Exec) callEffects(fr *Frame, c *ssa.CallCommon, depth int) callEff {
 		fromContract(fc)
 		return e
 	}
+	if top := x.top; top != nil && top.contract != nil && top.contract.Calls[fn.Name()] == "pure" {
+		return e // local assumption: effect-free (see callFunction)
+	}
 	if fn.Blocks == nil || depth > maxInlineDepth || hasLoop(fn) {
 		// mirrors havocArgs
 		for _, a := range c.Args {
